@@ -311,6 +311,162 @@ def r6(ctx, R):
         R.undecided("C15.R6", "resolvers", "resolve-then-read pairs", "fortls:0", "no resolver hands an object it resolves to a reader of the resolved fields")
 
 
+# ------------------------------------------------------------------- R7
+def _global_setters(ctx):
+    """{qual: (global name, param index)} of module-level functions `def f(x): global G; G = x`"""
+    out = {}
+    for g in ctx.m.funcs.values():
+        if g.cls or "." in g.qual.split(":", 1)[-1]:
+            continue
+        gl = {n for st in ctx.m.walk_own(g.node) if isinstance(st, ast.Global) for n in st.names}
+        for st in ctx.m.walk_own(g.node):
+            if isinstance(st, ast.Assign) and len(st.targets) == 1 and isinstance(st.targets[0], ast.Name) and st.targets[0].id in gl and isinstance(st.value, ast.Name) and st.value.id in g.params:
+                out[g.qual] = (st.targets[0].id, g.params.index(st.value.id))
+    return out
+
+
+def _events(ctx, f, setters, attr, depth=0, cond=False, seen=()):
+    """ordered events of one run through f: ('set', setter qual, arg expr, func, node, conditional),
+    ('write', attr, func, node, conditional); calls to methods of the same class are followed"""
+    out = []
+    if depth > 4 or f.qual in seen:
+        return out
+
+    def calls_ordered(node):
+        cs = [c for c in ast.walk(node) if isinstance(c, ast.Call)]
+        return sorted(cs, key=lambda c: (getattr(c, "end_lineno", c.lineno), getattr(c, "end_col_offset", 0)))
+
+    def visit(stmts, cond):
+        for st in stmts:
+            if isinstance(st, (ast.FunctionDef, ast.AsyncFunctionDef, ast.ClassDef)):
+                continue
+            if isinstance(st, (ast.If, ast.While)):
+                heads = [st.test]
+            elif isinstance(st, (ast.For,)):
+                heads = [st.iter]
+            elif isinstance(st, ast.With):
+                heads = [i.context_expr for i in st.items]
+            elif isinstance(st, ast.Try):
+                heads = []
+            else:
+                heads = [st]
+            for h in heads:
+                for c in calls_ordered(h):
+                    kind, tg = ctx.r.resolve_call(f, c)
+                    tg = [q for q in tg if q in ctx.m.funcs]
+                    hit = [q for q in tg if q in setters]
+                    if hit and kind != "by_name":
+                        a = c.args[setters[hit[0]][1]] if len(c.args) > setters[hit[0]][1] else None
+                        out.append(("set", hit[0], a, f, c, cond))
+                    elif len(tg) == 1 and kind != "by_name" and ctx.m.funcs[tg[0]].cls == f.cls and f.cls and isinstance(c.func, ast.Attribute) and unparse(c.func.value) == "self":
+                        out.extend(_events(ctx, ctx.m.funcs[tg[0]], setters, attr, depth + 1, cond, seen + (f.qual,)))
+            if isinstance(st, (ast.Assign, ast.AnnAssign, ast.AugAssign)):
+                tgts = st.targets if isinstance(st, ast.Assign) else [st.target]
+                for t in tgts:
+                    for x in ast.walk(t):
+                        if isinstance(x, ast.Attribute) and x.attr == attr and unparse(x.value) == "self":
+                            out.append(("write", attr, f, st, cond))
+            # reflective option loading: setattr(self, key, value)
+            if isinstance(st, ast.Expr) and isinstance(st.value, ast.Call) and isinstance(st.value.func, ast.Name) and st.value.func.id == "setattr" and st.value.args and unparse(st.value.args[0]) == "self":
+                k = st.value.args[1] if len(st.value.args) > 1 else None
+                if not (isinstance(k, ast.Constant) and k.value != attr):
+                    out.append(("write", attr, f, st, cond))
+            if isinstance(st, ast.If):
+                visit(st.body, True)
+                visit(st.orelse, True)
+            elif isinstance(st, (ast.For, ast.While)):
+                visit(st.body, True)
+                visit(st.orelse, True)
+            elif isinstance(st, ast.With):
+                visit(st.body, cond)
+            elif isinstance(st, ast.Try):
+                visit(st.body, cond)
+                for h in st.handlers:
+                    visit(h.body, True)
+                visit(st.orelse, cond)
+                visit(st.finalbody, cond)
+
+    visit(f.node.body, cond)
+    return out
+
+
+def r7(ctx, R):
+    R.rule("C15.R7", "a process-wide parse setting that pool workers receive as an explicit argument holds the same option value in the server process once initialisation is over (files opened later are parsed in-process)", floor=1, confirmed=1)
+    f, sub, worker = pool_site(ctx)
+    setters = _global_setters(ctx)
+    sc = server_class(ctx)
+    # which worker parameter feeds which setter, and which server option is submitted for it
+    args_tuple = next((kw.value for kw in sub.keywords if kw.arg == "args"), sub.args[1] if len(sub.args) > 1 else None)
+    wparams = worker.params[1:] if (worker.cls and worker.params and worker.params[0] in ("self", "cls")) else list(worker.params)
+    n = 0
+    for c in calls_in(worker.node):
+        kind, tg = ctx.r.resolve_call(worker, c)
+        hit = [q for q in tg if q in setters]
+        if not hit or not c.args:
+            continue
+        sq = hit[0]
+        a = c.args[setters[sq][1]] if len(c.args) > setters[sq][1] else None
+        if not (isinstance(a, ast.Name) and a.id in wparams and isinstance(args_tuple, (ast.Tuple, ast.List)) and len(args_tuple.elts) > wparams.index(a.id)):
+            R.undecided("C15.R7", worker.short, key(worker, ctx.m.enclosing_stmt(c)), loc(worker, c), "argument of the setter is not a task argument")
+            continue
+        opt = args_tuple.elts[wparams.index(a.id)]
+        if not (isinstance(opt, ast.Attribute) and unparse(opt.value) == "self"):
+            R.undecided("C15.R7", worker.short, key(worker, ctx.m.enclosing_stmt(c)), loc(f, opt), f"submitted value `{unparse(opt)}` is not a server option")
+            continue
+        attr = opt.attr
+        n += 1
+        init = ctx.m.funcs.get(ctx.m.method(sc.qual, "__init__") or "")
+        hs = dispatch_table(ctx).get("initialize") or set()
+        if init is None or len(hs) != 1:
+            R.undecided("C15.R7", worker.short, f"{setters[sq][0]} <- self.{attr}", loc(worker, c), "constructor or initialize handler not identified")
+            continue
+        handler = ctx.m.funcs[next(iter(hs))]
+        ev = _events(ctx, init, setters, attr) + _events(ctx, handler, setters, attr)
+        ev = [e for e in ev if e[0] == "write" or e[1] == sq]
+        # value of the global after the sequence: index of the option write it reflects
+        version = 0  # number of writes to self.<attr> seen so far
+        held = None  # version of self.<attr> the global holds; "const" for other values
+        held_at = None
+        prev_ret = {}  # local name bound to the setter's return value -> version held before that call
+        undec = None
+        for e in ev:
+            if e[0] == "write":
+                version += 1
+                if e[4] and False:
+                    pass
+                continue
+            _, _, arg, g, call, cond = e
+            before = held
+            st = ctx.m.enclosing_stmt(call)
+            if isinstance(st, ast.Assign) and st.value is call and len(st.targets) == 1 and isinstance(st.targets[0], ast.Name):
+                prev_ret[(g.qual, st.targets[0].id)] = before
+            if cond:
+                undec = (g, call, "the setter is called conditionally")
+            if isinstance(arg, ast.Attribute) and unparse(arg) == f"self.{attr}":
+                held = version
+            elif isinstance(arg, ast.Name) and (g.qual, arg.id) in prev_ret:
+                held = prev_ret[(g.qual, arg.id)]
+            elif isinstance(arg, ast.Constant):
+                held = ("const", arg.value)
+            else:
+                held = None
+                undec = (g, call, f"argument `{unparse(arg) if arg is not None else ''}` not derived")
+            held_at = (g, call)
+        kk = f"{setters[sq][0]} <- self.{attr}"
+        if held_at is None:
+            R.violation("C15.R7", handler.short, kk, loc(handler, handler.node), f"workers parse with self.{attr} (passed explicitly), but the server process never sets `{setters[sq][0]}`: files opened later are parsed with the module default")
+        elif undec is not None and held != version:
+            R.undecided("C15.R7", undec[0].short, kk, loc(undec[0], undec[1]), undec[2])
+        elif held == version:
+            R.ok("C15.R7", held_at[0].short, kk, loc(held_at[0], held_at[1]), f"last setter call of initialisation passes self.{attr} after its last write ({version} writes: constructor, configuration file)")
+        elif isinstance(held, tuple):
+            R.violation("C15.R7", held_at[0].short, kk, loc(held_at[0], held_at[1]), f"initialisation leaves `{setters[sq][0]}` at the constant {held[1]!r}; workers parse with self.{attr}: a file indexed at start-up and the same file opened later are parsed with different settings")
+        else:
+            R.violation("C15.R7", held_at[0].short, kk, loc(held_at[0], held_at[1]), f"after initialisation `{setters[sq][0]}` holds the value self.{attr} had before its last write (the configuration file is read later), while workers receive the current self.{attr}: with the option set in the configuration file, files indexed at start-up and files opened later are parsed with different settings")
+    if n == 0:
+        R.undecided("C15.R7", worker.short, "process-wide settings", loc(worker, worker.node), "the worker sets no process-wide setting from its arguments")
+
+
 def run(ctx, R):
     r1(ctx, R)
     r2(ctx, R)
@@ -318,3 +474,4 @@ def run(ctx, R):
     r4(ctx, R)
     r5(ctx, R)
     r6(ctx, R)
+    r7(ctx, R)
